@@ -166,8 +166,70 @@ fn stream(ctx: &mut Ctx, univ: &[u64], n: u64) -> Vec<u64> {
     (0..n).map(|_| *ctx.rng.pick(univ)).collect()
 }
 
+/// quotient-filter unions whose other operand holds a cluster that starts exactly in the last
+/// slot of the table (its followers wrap to slots 0, 1, ...), or runs that straddle the end
+pub fn gen_c06_qf_lastslot(ctx: &mut Ctx, ncases: u64) {
+    for c in 0..ncases {
+        ctx.case("c06.qf.lastslot");
+        ctx.hasher(ScriptBH::xor());
+        let (q, r) = (ctx.rng.range(2, 4), ctx.rng.range(2, 4));
+        let n = 1u64 << q;
+        for id in 1..=4 {
+            ctx.op(format!("qf.new {} {} {}", id, q, r));
+        }
+        let mut univ = vec![];
+        // B: a cluster starting at slot n-1 (c even) or n-2, with 2..4 fingerprints, plus a second run
+        let start = if c % 2 == 0 { n - 1 } else { n - 2 };
+        let mut sb = vec![];
+        for i in 0..ctx.rng.clone().range(2, 4) {
+            sb.push(qf_key(ctx, q, r, start, (i + 1) % (1 << r)));
+        }
+        if ctx.rng.chance(1, 2) {
+            sb.push(qf_key(ctx, q, r, 0, 1));
+        }
+        if ctx.rng.chance(1, 2) {
+            sb.push(qf_key(ctx, q, r, (start + 1) % n, 2));
+        }
+        let mut sa = vec![];
+        for _ in 0..ctx.rng.clone().below(3) {
+            let quo = ctx.rng.below(n);
+            sa.push(qf_key(ctx, q, r, quo, 3));
+        }
+        univ.extend(sa.iter().cloned());
+        univ.extend(sb.iter().cloned());
+        for quo in 0..n {
+            univ.push(qf_key(ctx, q, r, quo, 0));
+        }
+        for k in &sa {
+            ctx.op(format!("qf.insert 1 {}", k));
+            ctx.op(format!("qf.insert 3 {}", k));
+        }
+        for k in &sb {
+            ctx.op(format!("qf.insert 2 {}", k));
+            ctx.op(format!("qf.insert 3 {}", k));
+        }
+        ctx.op("qf.clone 2 4".into());
+        let a = ctx.op("qf.union 1 2".into());
+        ctx.stat(&format!("c06.qf.lastslot.{}", a), 1);
+        if a == "ok" {
+            ctx.op("both qf.len 1 3".into());
+            for k in &univ {
+                ctx.op(format!("both qf.query 1 3 {}", k));
+            }
+            // merging twice changes nothing
+            ctx.op("qf.union 1 2".into());
+            ctx.op("both qf.len 1 3".into());
+        }
+        ctx.op("both qf.len 2 4".into());
+        for k in &univ {
+            ctx.op(format!("both qf.query 2 4 {}", k));
+        }
+    }
+}
+
 pub fn gen_c06(ctx: &mut Ctx) {
     gen_c06_cuckoo_loaded(ctx, 40 * ctx.tier_scale);
+    gen_c06_qf_lastslot(ctx, 12 * ctx.tier_scale);
     bloom_sparse_unions(ctx, 60 * ctx.tier_scale);
     for round in 0..(16 * ctx.tier_scale) {
         for f in FAMS {
@@ -835,7 +897,37 @@ pub fn gen_td(ctx: &mut Ctx, n: u64) {
         let q = fx(ctx.rng.f01());
         ctx.op(format!("td.quantile 1 {}", q));
         ctx.op(format!("td.quantile 1 {}", q));
-    }    // heavy weighted atoms exactly at max() / min(), spread over several centroids
+    }    // a relatively weightless centroid (weight ratio below 2^-53) fused into a heavy one under
+    // total fusion: its weight vanishes from count() in f64, its x*w must still reach sum()
+    for c in 0..(8 * ctx.tier_scale.min(4)) {
+        ctx.case("td.light");
+        let scale = c % 4;
+        let delta = *ctx.rng.pick(&[1.1f64, 1.5, 2.0]);
+        let bl = *ctx.rng.pick(&[0u64, 1, 10]);
+        ctx.op(format!("td.new 1 {} {} {}", scale, fx(delta), bl));
+        let heavy_w = *ctx.rng.pick(&[1e6f64, 1e10, 1e12, 1.0]);
+        let light_w = heavy_w * *ctx.rng.pick(&[1e-17f64, 1e-18, 1e-20, 3e-17]);
+        let big_x = *ctx.rng.pick(&[1e6f64, 1e9, 1e12, -1e9]);
+        let small_x = *ctx.rng.pick(&[1e-6f64, 1.0, -3.0]);
+        let light_first = ctx.rng.chance(1, 3);
+        let mut seq = vec![(small_x, heavy_w), (big_x, light_w)];
+        if light_first {
+            seq.swap(0, 1);
+        }
+        for r in 0..ctx.rng.clone().range(1, 3) {
+            for (x, w) in &seq {
+                ctx.op(format!("td.insertw 1 {} {}", fx(*x * (1.0 + r as f64 * 1e-3)), fx(*w)));
+                if ctx.rng.chance(1, 3) {
+                    ctx.op("td.sum 1".into());
+                }
+            }
+        }
+        for op in ["td.count 1", "td.sum 1", "td.mean 1", "td.min 1", "td.max 1", "td.ncent 1", "td.empty 1"] {
+            ctx.op(op.into());
+        }
+        ctx.op(format!("td.quantile 1 {}", fx(0.5)));
+    }
+    // heavy weighted atoms exactly at max() / min(), spread over several centroids
     for c in 0..(10 * ctx.tier_scale.min(4)) {
         ctx.case("td.atom");
         td_history_shaped(ctx, n.min(200), Some(c % 2 == 0));
@@ -870,7 +962,12 @@ pub fn gen_c19(ctx: &mut Ctx) {
             // a copy evolves exactly like the original under the same further operations
             // (clone() and clone_from() into an instance that already holds something else)
             ctx.op(format!("{}.clone 1 6", f.name));
-            fam_new(ctx, f, 7, &cfg);
+            // the receiver of clone_from: another configuration (half of the time), another hasher
+            let bh2 = ctx.rand_hasher();
+            ctx.hasher(bh2);
+            let cfg2 = if ctx.rng.chance(1, 2) { fam_cfg(ctx, f).0 } else { cfg.clone() };
+            fam_new(ctx, f, 7, &cfg2);
+            ctx.hasher(bh);
             let other = stream(ctx, &keys.univ, 3);
             feed(ctx, f, 7, &other);
             ctx.op(format!("{}.clonefrom 7 1", f.name));
@@ -1102,6 +1199,8 @@ pub fn gen_c20(ctx: &mut Ctx) {
                 ctx.op("both hll.count 1 4".into());
             }
         }
+        ctx.op("hll.eq 1 2".into());
+        ctx.op("hll.eq 2 1".into());
         ctx.op("both hll.regs 1 2".into());
         ctx.op("both hll.count 1 2".into());
         ctx.op("both hll.empty 1 2".into());
@@ -1113,6 +1212,7 @@ pub fn gen_c20(ctx: &mut Ctx) {
         ctx.op(format!("hll.new 3 {}", b));
         ctx.op(format!("hll.addh 3 {}", ctx.rng.clone().next()));
         ctx.op("both hll.merge 1 2 3".into()); // merge needs equal hashers: the deserialised one must be equal
+        ctx.op("hll.eq 1 2".into());
         ctx.op("both hll.regs 1 2".into());
         ctx.op("hll.merge 1 2".into());
         ctx.op("hll.regs 1".into());
@@ -1138,6 +1238,26 @@ pub fn gen_c20(ctx: &mut Ctx) {
             }
         }
     }
+    // b outside 4..=18 with EXACTLY 2^b registers (the length check alone does not reject these)
+    for b in [0u64, 1, 2, 3] {
+        ctx.case("c20.exactlen");
+        let regs: Vec<String> = (0..(1u64 << b)).map(|i| (i % 3).to_string()).collect();
+        for order in 0..3 {
+            let mut fields = vec![format!("R:{}", regs.join(",")), format!("B:{}", b), "H:1,0,64,0".to_string()];
+            fields.rotate_left(order);
+            let a = ctx.op(format!("hll.deser 1 {}", fields.join(" ")));
+            ctx.stat(&format!("c20.deser.{}", a), 1);
+            if a == "ok" {
+                ctx.op("hll.regs 1".into());
+                ctx.op("hll.count 1".into());
+                ctx.op("hll.addh 1 12345".into());
+            }
+        }
+    }
+    ctx.case("c20.nonstruct");
+    ctx.op("hll.deser 1 N".into());
+    ctx.op("hll.deser 1 A".into());
+    ctx.op("hll.deser 1".into());
     for _ in 0..(150 * ctx.tier_scale) {
         ctx.case("c20.malformed");
         // b and the registers length varied independently, plus omissions / duplicates / unknown / wrong types
@@ -1215,6 +1335,35 @@ pub fn gen_c03(ctx: &mut Ctx) {
         }
         ctx.stat(&format!("c03.b.{}", b), 1);
     }
+    // clone_from between sketches with different hashers (and precisions), then the known keys
+    // again: nothing may be counted twice
+    for c in 0..(6 * ctx.tier_scale.min(4)) {
+        ctx.case("c03.clonefrom");
+        let bh1 = ctx.rand_hasher();
+        let bh2 = ctx.rand_hasher();
+        let b = 4 + (c * 3) % 11;
+        ctx.hasher(bh1);
+        ctx.op(format!("hll.new 1 {}", b));
+        ctx.hasher(bh2);
+        ctx.op(format!("hll.new 2 {}", if c % 2 == 0 { b } else { b + 2 }));
+        ctx.op(format!("hll.add 2 {}", ctx.rng.clone().next()));
+        ctx.hasher(bh1);
+        let n = 3 * (1u64 << b);
+        let keys: Vec<u64> = (0..n.min(600)).map(|_| ctx.rng.next()).collect();
+        for k in &keys {
+            ctx.op(format!("hll.add 1 {}", k));
+        }
+        ctx.op("hll.count 1".into());
+        ctx.op("hll.clonefrom 2 1".into());
+        ctx.op("both hll.count 2 1".into());
+        for k in &keys {
+            ctx.op(format!("hll.add 2 {}", k));
+        }
+        ctx.op("both hll.count 2 1".into());
+        ctx.op("both hll.regs 2 1".into());
+        ctx.op("hll.merge 2 1".into());
+        ctx.op("both hll.count 2 1".into());
+    }
     // arbitrary register contents (all 256 byte values), explicit vectors for small precisions
     for _ in 0..(20 * ctx.tier_scale) {
         ctx.case("c03.arbitrary");
@@ -1285,6 +1434,44 @@ pub fn gen_c07(ctx: &mut Ctx) {
             }
         }
     }
+    // clone_from between filters built for different targets: the copy has the source's parameters
+    for &(p1, p2, n) in &[(0.2f64, 0.001f64, 200u64), (1e-6, 0.05, 100), (0.01, 0.01, 50), (0.5, 1e-9, 20)] {
+        ctx.case("c07.clonefrom");
+        let bh = ctx.rand_hasher();
+        ctx.hasher(bh);
+        for which in [4, 8] {
+            let a1 = ctx.op(format!("cuckoo.props 1 {} {} {} 5", which, fx(p1), n));
+            let a2 = ctx.op(format!("cuckoo.props 2 {} {} {} 7", which, fx(p2), n));
+            if a1.starts_with("ok") && a2.starts_with("ok") {
+                ctx.op("cuckoo.insert 1 3".into());
+                ctx.op("cuckoo.clonefrom 1 2".into());
+                ctx.op("both cuckoo.getters 1 2".into());
+                for i in 0..n.min(60) {
+                    ctx.op(format!("both cuckoo.insert 1 2 {}", i * 7 + 1));
+                }
+                ctx.op("both cuckoo.len 1 2".into());
+                for i in 0..80 {
+                    ctx.op(format!("both cuckoo.query 1 2 {}", i * 3 + 1));
+                }
+            }
+        }
+        if -(n as f64) * p2.ln() < 1e5 {
+            let a1 = ctx.op(format!("bloom.props 3 {} {}", n, fx(p1)));
+            let a2 = ctx.op(format!("bloom.props 4 {} {}", n, fx(p2)));
+            if a1.starts_with("ok") && a2.starts_with("ok") {
+                ctx.op("bloom.insert 3 3".into());
+                ctx.op("bloom.clonefrom 3 4".into());
+                ctx.op("both bloom.getters 3 4".into());
+                for i in 0..n.min(60) {
+                    ctx.op(format!("both bloom.insert 3 4 {}", i * 7 + 1));
+                }
+                ctx.op("both bloom.len 3 4".into());
+                for i in 0..80 {
+                    ctx.op(format!("both bloom.query 3 4 {}", i * 3 + 1));
+                }
+            }
+        }
+    }
     // invalid arguments
     ctx.case("c07.reject");
     for p in [0.0f64, 1.0, -0.5, 1.5, f64::NAN] {
@@ -1308,6 +1495,26 @@ pub fn gen_c07(ctx: &mut Ctx) {
             }
         }
         ctx.op("bloom.len 1".into());
+        // len() after unions of loaded filters (disjoint halves, shared ancestors)
+        ctx.op(format!("bloom.new 2 {} {}", m, k));
+        ctx.op(format!("bloom.new 3 {} {}", m, k));
+        for i in 0..(m / (4 * k)) {
+            ctx.op(format!("bloom.insert 2 {}", i * 104729 + 5));
+        }
+        ctx.op("bloom.clone 2 3".into());
+        for i in 0..(m / (8 * k)) {
+            ctx.op(format!("bloom.insert 3 {}", i * 15485863 + 11));
+        }
+        ctx.op("bloom.len 2".into());
+        ctx.op("bloom.len 3".into());
+        ctx.op("bloom.union 2 1".into());
+        ctx.op("bloom.len 2".into());
+        ctx.op("bloom.union 3 2".into());
+        ctx.op("bloom.len 3".into());
+        ctx.op("bloom.union 3 3".into());
+        ctx.op("bloom.len 3".into());
+        ctx.op("bloom.insert 3 424242".into());
+        ctx.op("bloom.len 3".into());
     }
 }
 
